@@ -66,6 +66,18 @@ typedef ArrayPtr IntArray;
  extern int          arr_floatdcmp  ( const void *c1, const void *c2 );
  extern int          arr_intDescCmp ( const void *c1, const void *c2 );
 
+#ifdef LIBECBUFR_VERIF
+/*
+ * verification hook (compiled only with -DLIBECBUFR_VERIF): number of live objects of every kind,
+ * incremented where an object is allocated and decremented where it is released
+ */
+enum { BUFR_VK_TABLES=0, BUFR_VK_ENTRYB, BUFR_VK_ENTRYD, BUFR_VK_TEMPLATE, BUFR_VK_DATASET, BUFR_VK_SUBSET,
+       BUFR_VK_DESCRIPTOR, BUFR_VK_VALUE, BUFR_VK_AF, BUFR_VK_AFD, BUFR_VK_MESSAGE, BUFR_VK_SEQUENCE,
+       BUFR_VK_LIST, BUFR_VK_LISTNODE, BUFR_VK_ARRAY, BUFR_VK_RTMD, BUFR_VK_DDOP, BUFR_VK_DPBM, BUFR_VK_NKINDS };
+ extern long         bufr_verif_live[BUFR_VK_NKINDS];
+ extern void         bufr_verif_counts( long *out, int n );
+#endif
+
 #ifdef __cplusplus
 }
 #endif
